@@ -154,6 +154,13 @@ func (d *Director) event(e Event) {
 	}
 }
 
+// ConnectCount returns how many client streams server i has accepted so far.
+func (d *Director) ConnectCount(server int) int {
+	d.mu.Lock()
+	defer d.mu.Unlock()
+	return d.Connects[server]
+}
+
 // Events returns a copy of the log.
 func (d *Director) Events() []Event {
 	d.mu.Lock()
@@ -227,7 +234,7 @@ type Server struct {
 }
 
 func (p *Server) release(ctx *gorums.ServerCtx, s *Script, method string, when string) {
-	atEntry := s.Release == "early" || s.Release == "twice" || s.Release == "helper"
+	atEntry := s.Release == "early" || s.Release == "twice" || s.Release == "helper" || s.Release == "storm"
 	if (when == "entry" && !atEntry) || (when == "late" && s.Release != "late") {
 		return
 	}
@@ -244,6 +251,15 @@ func (p *Server) release(ctx *gorums.ServerCtx, s *Script, method string, when s
 		done := make(chan struct{})
 		go func() { ctx.Release(); ctx.Release(); close(done) }()
 		<-done
+	case "storm":
+		// several goroutines release at the same moment, racing with each other (and, when the
+		// handler is let go at once, with the implicit release at return)
+		p.D.note(p.Idx, s, method, "release")
+		start := make(chan struct{})
+		for i := 0; i < 4; i++ {
+			go func() { <-start; ctx.Release() }()
+		}
+		close(start)
 	}
 }
 
